@@ -110,7 +110,7 @@ fn gen_fanout_bench(rng: &mut Rng) -> Case {
 }
 
 fn gen_c04(rng: &mut Rng, thorough: bool) -> Case {
-    if rng.below(1000) < (if thorough { 6 } else { 4 }) {
+    if rng.below(1000) < (if thorough { 8 } else { 12 }) {
         return gen_fanout_bench(rng);
     }
     let burst = rng.pct(if thorough { 6 } else { 3 });
